@@ -8,6 +8,8 @@ import (
 	"github.com/pierrec/lz4/v4"
 	"github.com/prometheus/client_golang/prometheus"
 	"github.com/prometheus/client_golang/prometheus/promauto"
+
+	"github.com/benbjohnson/litestream/verifhook"
 )
 
 // ReadCloser wraps a reader to also attach a separate closer.
@@ -84,6 +86,7 @@ func CreateFile(filename string, fi os.FileInfo) (*os.File, error) {
 		mode = fi.Mode()
 	}
 
+	verifhook.FS("create", filename, "")
 	f, err := os.OpenFile(filename, os.O_RDWR|os.O_CREATE|os.O_TRUNC, mode)
 	if err != nil {
 		return nil, err
@@ -98,6 +101,7 @@ func CreateFile(filename string, fi os.FileInfo) (*os.File, error) {
 // mode/uid/gid to match fi for each created directory.
 // FsyncDir syncs a directory so a preceding rename within it is durable.
 func FsyncDir(path string) error {
+	verifhook.FS("fsyncdir", path, "")
 	dir, err := os.Open(path)
 	if err != nil {
 		return err
@@ -145,6 +149,7 @@ func MkdirAll(path string, fi os.FileInfo) error {
 	if fi != nil {
 		mode = fi.Mode()
 	}
+	verifhook.FS("mkdir", path, "")
 	err = os.Mkdir(path, mode)
 	if err != nil {
 		// Handle arguments like "foo/." by
